@@ -172,7 +172,8 @@ impl<C: ConfigurationAccess> PciRoot<C> {
             .configuration_access
             .read_word(device_function, STATUS_COMMAND_OFFSET);
         let status = Status::from_bits_truncate((status_command >> 16) as u16);
-        let command = Command::from_bits_truncate(status_command as u16);
+        // Keep bits we don't know about, so that writing the value back doesn't clear them.
+        let command = Command::from_bits_retain(status_command as u16);
         (status, command)
     }
 
